@@ -27,7 +27,7 @@ EXPLANATION = (
     "extractor is dominated by populate_from_path(path) on the yielded object's metadata, and populate_from_path returns "
     "before touching anything when path is None."
 )
-NOT_DECIDED = ["accessors never raise (in general)", "document properties reported unchanged (value identity through XML/OLE readers)", "behaviour on damaged-but-accepted files beyond the nullness facts"]
+NOT_DECIDED = ["accessors never raise (in general)", "document properties reported unchanged (value identity through XML/OLE readers)", "behaviour on damaged-but-accepted files beyond the nullness facts", "which of several stored values feeds a metadata field when a file carries more than one candidate (e.g. <meta name=description> and og:description): value-level choice"]
 TRUSTED = ["ElementTree .text / one-argument .get / .find may return None", "str methods return str", "nullness and interval engines"]
 FLOORS = {"C04-IFACE": 40, "C04-STR": 100, "C04-CHR": 5, "C04-BYTES": 20, "C04-DIM": 6, "C04-NUMPOS": 12, "C04-META": 21}
 
